@@ -3,9 +3,18 @@
 #include "../../../../common/debug_messages.h"
 #include "../../../../common/type_helpers.h"
 #include "../../core/interpreter.h"
+#include <utility>
+#include <vector>
 
 StaticVariableManager::StaticVariableManager(Interpreter *interpreter)
     : interpreter_(interpreter) {}
+
+namespace {
+// (interface, type) of the enclosing impl method calls whose context is
+// active; exit_impl_context() puts the innermost one back. Kept in this file
+// so that the class layout in static.h does not change.
+std::vector<std::pair<std::string, std::string>> enclosing_impl_contexts;
+} // namespace
 
 // ========================================================================
 // Static変数管理
@@ -68,12 +77,26 @@ std::string StaticVariableManager::get_impl_static_namespace() const {
 
 void StaticVariableManager::enter_impl_context(
     const std::string &interface_name, const std::string &struct_type_name) {
+    if (current_impl_context_.is_active) {
+        // a nested impl method call must not lose the caller's context
+        enclosing_impl_contexts.emplace_back(
+            current_impl_context_.interface_name,
+            current_impl_context_.struct_type_name);
+    }
     current_impl_context_.interface_name = interface_name;
     current_impl_context_.struct_type_name = struct_type_name;
     current_impl_context_.is_active = true;
 }
 
 void StaticVariableManager::exit_impl_context() {
+    if (!enclosing_impl_contexts.empty()) {
+        current_impl_context_.interface_name =
+            enclosing_impl_contexts.back().first;
+        current_impl_context_.struct_type_name =
+            enclosing_impl_contexts.back().second;
+        enclosing_impl_contexts.pop_back();
+        return;
+    }
     current_impl_context_.is_active = false;
     current_impl_context_.interface_name = "";
     current_impl_context_.struct_type_name = "";
